@@ -169,8 +169,101 @@ fn history(seed: u64) -> Vec<(String, String)> {
     fails
 }
 
+/// The filesystem contract the database relies on, on the real implementation: random sequences of
+/// create (truncating / appending) + writes, reads, sizes, renames, removals and listings are applied
+/// to `TmpFileSystem` and to the simulated filesystem the rest of the harness runs on; both must
+/// answer alike (this validates the simulation as much as the disk code).
+fn fs_conformance(seed: u64) -> Vec<(String, String)> {
+    use raindb::fs::FileSystem;
+    let mut rng = Prng::new(seed);
+    let base = std::env::temp_dir().join(format!("rainverif-fsc-{}-{}", std::process::id(), seed));
+    let _ = std::fs::create_dir_all(&base);
+    let disk = Arc::new(TmpFileSystem::new(Some(&base)));
+    let droot = disk.get_root_path();
+    let sim = crate::simfs::SimFs::new();
+    let sroot = std::path::PathBuf::from("/r");
+    let _ = sim.create_dir_all(&sroot);
+    let names = ["a.log", "b.rdb", "c.dbtemp", "CURRENT"];
+    let mut fails = vec![];
+    let mut trace: Vec<String> = vec![];
+    let read_all = |fs: &dyn FileSystem, p: &std::path::Path| -> Result<Vec<u8>, String> {
+        let f = fs.open_file(p).map_err(|e| format!("{:?}", e.kind()))?;
+        let n = fs.get_file_size(p).map_err(|e| format!("{:?}", e.kind()))? as usize;
+        let mut buf = vec![0u8; n];
+        let got = f.read_from(&mut buf, 0).map_err(|e| format!("{:?}", e.kind()))?;
+        buf.truncate(got);
+        Ok(buf)
+    };
+    for step in 0..rng.range(10, 60) {
+        let name = *rng.pick(&names);
+        let (dp, sp) = (droot.join(name), sroot.join(name));
+        let desc;
+        let (a, b): (String, String) = match rng.below(7) {
+            0 | 1 => {
+                let append = rng.chance(1, 2);
+                let chunks: Vec<Vec<u8>> = (0..rng.range(1, 4)).map(|_| { let n = rng.range(1, 60) as usize; rng.bytes(n) }).collect();
+                desc = format!("create_file({name}, append={append}) + {} writes of {:?} bytes", chunks.len(), chunks.iter().map(|c| c.len()).collect::<Vec<_>>());
+                let run = |fs: &dyn FileSystem, p: &std::path::Path| -> String {
+                    match fs.create_file(p, append) {
+                        Err(e) => format!("err {:?}", e.kind()),
+                        Ok(mut f) => {
+                            for c in &chunks {
+                                if std::io::Write::write_all(&mut f, c).is_err() {
+                                    return "write-error".into();
+                                }
+                            }
+                            let _ = std::io::Write::flush(&mut f);
+                            format!("ok len={:?}", f.len().ok())
+                        }
+                    }
+                };
+                (run(disk.as_ref(), &dp), run(&sim, &sp))
+            }
+            2 => {
+                desc = format!("read {name}");
+                (format!("{:?}", read_all(disk.as_ref(), &dp).map(|v| hex(&v))), format!("{:?}", read_all(&sim, &sp).map(|v| hex(&v))))
+            }
+            3 => {
+                desc = format!("get_file_size {name}");
+                (format!("{:?}", disk.get_file_size(&dp).map_err(|e| e.kind())), format!("{:?}", sim.get_file_size(&sp).map_err(|e| e.kind())))
+            }
+            4 => {
+                let to = *rng.pick(&names);
+                desc = format!("rename {name} -> {to}");
+                (format!("{:?}", disk.rename(&dp, &droot.join(to)).map_err(|e| e.kind())), format!("{:?}", sim.rename(&sp, &sroot.join(to)).map_err(|e| e.kind())))
+            }
+            5 => {
+                desc = format!("remove_file {name}");
+                (format!("{:?}", disk.remove_file(&dp).map_err(|e| e.kind())), format!("{:?}", sim.remove_file(&sp).map_err(|e| e.kind())))
+            }
+            _ => {
+                desc = "list_dir".to_string();
+                let norm = |r: std::io::Result<Vec<std::path::PathBuf>>| -> String {
+                    match r {
+                        Err(e) => format!("err {:?}", e.kind()),
+                        Ok(v) => {
+                            let mut n: Vec<String> = v.iter().filter_map(|p| p.file_name().map(|x| x.to_string_lossy().to_string())).collect();
+                            n.sort();
+                            n.join(",")
+                        }
+                    }
+                };
+                (norm(disk.list_dir(&droot)), norm(sim.list_dir(&sroot)))
+            }
+        };
+        trace.push(desc.clone());
+        if a != b {
+            fails.push(("disk:filesystem-contract".into(), format!("step {step} ({desc}): the disk filesystem answers [{}], the simulated one [{}]; steps so far: {}", a.chars().take(200).collect::<String>(), b.chars().take(200).collect::<String>(), trace.join("; "))));
+            break;
+        }
+    }
+    drop(disk);
+    let _ = std::fs::remove_dir_all(&base);
+    fails
+}
+
 pub fn rule() -> &'static str {
-    "the database on the crate's real disk-backed filesystem (TmpFileSystem in a scratch directory that is removed afterwards): histories of 20-120 operations (puts, deletes, batches with and without the synchronous flag, gets, scans, manual compactions, clean close + reopen with both log-reuse settings) against a BTreeMap oracle, plus a log file appended to in two sessions and read back. Non-trivial = the history ran; distinct by seed."
+    "the database on the crate's real disk-backed filesystem (TmpFileSystem in a scratch directory that is removed afterwards): histories of 20-120 operations (puts, deletes, batches with and without the synchronous flag, gets, scans, manual compactions, clean close + reopen with both log-reuse settings) against a BTreeMap oracle, plus a log file appended to in two sessions and read back, plus the filesystem contract itself (create with truncation / append, writes, reads, sizes, renames over existing files, removals, listings) compared call by call with the simulated filesystem the rest of the harness uses. Non-trivial = the history ran; distinct by seed."
 }
 
 pub fn run(tier: &str, seed: u64, replay: Option<&str>) -> Report {
@@ -184,7 +277,13 @@ pub fn run(tier: &str, seed: u64, replay: Option<&str>) -> Report {
     for s in seeds {
         let line = format!("disk seed={s}");
         rep.case(&line, true);
-        match with_deadline(120, move || history(s)) {
+        match with_deadline(120, move || {
+            let mut f = history(s);
+            for k in 0..4u64 {
+                f.extend(fs_conformance(s.wrapping_mul(31).wrapping_add(k)));
+            }
+            f
+        }) {
             None => rep.fail("hang", "c09:operation-hangs", "a history on the disk filesystem did not finish within 120 s", &line),
             Some(fails) => {
                 for (sig, what) in fails {
